@@ -163,3 +163,29 @@ func VerifH_MarshalShape() {
 	verifrt.Assert("C09.marshal.object-shape", string(got) == string(want))
 	verifrt.Reach("C09.marshal.rendered", len(got) >= 2)
 }
+
+// VerifH_MarshalKeyBytes (C09, valid JSON for keys that need escaping): one HTTP
+// interaction whose path is "/" and one arbitrary byte that JSON cannot carry as it
+// stands (a control byte, DEL, or a byte >= 0x80, i.e. not valid UTF-8 on its own).
+// Escaping is encoding/json's work (outside the encoding): the collection must hand
+// the key - and the value - to json.Marshal, which the logging stub observes. In the
+// native replay the real encoding/json runs and the same assertion reads: the result
+// is a valid JSON object with one member.
+func VerifH_MarshalKeyBytes() {
+	b := verifrt.Bytes("c", 1)
+	verifrt.Assume(b[0] < 0x20 || b[0] == 0x7f || b[0] >= 0x80)
+	c := &Interactions{}
+	id := HTTPInteractionID{protocol: HTTP, path: Path("/" + string(b))}
+	c.Set(id, &HTTPInteraction{Id: id.String()})
+	verifMarshalLog = nil
+	got, err := c.MarshalJSON()
+	verifrt.Assert("C09.marshal.no-error", err == nil)
+	if !verifrt.Symbolic() {
+		var members map[string]json.RawMessage
+		ok := json.Valid(got) && json.Unmarshal(got, &members) == nil && len(members) == 1
+		verifrt.Assert("C09.marshal.key-escaped-by-encoding-json", ok)
+		return
+	}
+	verifrt.Assert("C09.marshal.key-escaped-by-encoding-json", len(verifMarshalLog) == 2)
+	verifrt.Reach("C09.marshal.key-bytes", true)
+}
